@@ -1,7 +1,7 @@
 (* C06/Properties.v — property theorems only (each closed by [exact lemma] and followed by
    [Print Assumptions]).  Model: C06/Model.v (the code after fix commits 3a7f18b, 811f017, 2c8a29b). *)
 From Coq Require Import String Permutation Morphisms.
-From RM Require Import C06.Model C06.GenModel C06.Proofs C06.Proofs2 C06.Proofs3 C06.Proofs4 C06.Proofs5 C06.Proofs6 C06.Proofs7 C06.Driver C06.GenDriver Gen.UnwindConsts.
+From RM Require Import C06.Model C06.GenModel C06.Proofs C06.Proofs2 C06.Proofs3 C06.Proofs4 C06.Proofs5 C06.Proofs6 C06.Proofs7 C06.Proofs8 C06.Driver C06.GenDriver Gen.UnwindConsts.
 Open Scope Z_scope.
 
 (* No Panic and no OutOfFuel: for ALL rule texts (arbitrary byte strings), every walker (any
@@ -367,3 +367,26 @@ Theorem c06_arch_tables_pinned :
   arm64 = arch_of_consts arm64_pw arm64_registers arm64_aliases arm64_cfi_sp_name arm64_cfi_ip_name arm64_callee_saved.
 Proof. exact arch_tables_pinned. Qed.
 Print Assumptions c06_arch_tables_pinned.
+
+(* The step the token-list model left trusted in rounds 1-4: parse_cfi_exprs keeps, per register, the SUBSTRING
+   `&input[first.start .. last.end]` and eval_cfi_expr tokenises it again.  For ALL byte strings: re-tokenising the
+   substring from the start of the first to the end of the last token of any run of consecutive tokens yields exactly
+   the tokens of the run; and every expression in the rule map that parse_cfi_exprs builds is such a re-tokenised
+   substring of one of the rule texts (so the token lists the model evaluates are the ones the code evaluates). *)
+Theorem c06_retokenise :
+  (forall input pre run last_ post,
+     tokens input = pre ++ (run ++ [last_]) ++ post ->
+     split_ws (substr input (t_off (hd last_ run)) (t_end last_)) = map t_body (run ++ [last_])) /\
+  (forall texts m, parse_all texts [] = Ret m -> forall k e, In (k, e) m ->
+     exists input first last, In input texts /\ In first (tokens input) /\ In last (tokens input) /\
+       e = split_ws (substr input (t_off first) (t_end last))).
+Proof. exact (conj retokenise_run exprs_are_retokenised_slices). Qed.
+Print Assumptions c06_retokenise.
+
+Example c06_nonvacuous_retokenise :
+  let input := bs "  .cfa:  $rsp 	 8 +  .ra:	.cfa  -8 + ^ " in
+  exists pre post,
+    tokens input = pre ++ ([mkTok 9 (bs "$rsp"); mkTok 16 (bs "8")] ++ [mkTok 18 (bs "+")]) ++ post /\
+    substr input 9 19 = bs "$rsp 	 8 +" /\
+    split_ws (substr input 9 19) = [bs "$rsp"; bs "8"; bs "+"].
+Proof. eexists [_], _. vm_compute. repeat split; reflexivity. Qed.
